@@ -8,12 +8,13 @@ from vlib import *
 
 PID = "C35"
 FINDING_KEY = "finding:equidistant_branch_offset_frequencies"
+FINDING_KEY_PERIOD = "finding:period_wrap_rounded_frequencies"
 META = {
     "level": "proof",
     "technique": "Coq proof over R (exactness of a shift rule on all trigonometric polynomials <=> trigonometric moment conditions) + per-instance validation of the moment conditions on the real generate_shift_rule output in 40-digit arithmetic + vm_compute correspondence for the branch test and process_shifts",
     "design_ref": "DESIGN.md §3 C35, §5 item 8",
     "text": "Props/C35.v proves, for ALL rules (lists of (coefficient, shift)), frequencies and points: the rule reproduces f' for f=cos(w.) and f=sin(w.) at every x IFF sum c cos(w s)=0 and sum c sin(w s)=w; if in addition sum c = 0 (automatic for PennyLane's antisymmetric +/- pairs, proved) the rule's value IS the derivative (derivable_pt_lim) of every finite trigonometric polynomial a0+sum a_j cos(w_j x)+b_j sin(w_j x) whose frequencies satisfy the moments; same for the second derivative with moments (-w^2, 0); the iterated rule (_iterate_shift_rule, order 2) of two first-order-exact rules satisfies the second-order moments; shifting a shift by a period leaves the moments unchanged; the two-term rule (+-w/2 at +-pi/(2w)) satisfies the moments. The branch test of _get_shift_rule is transcribed over Q and REFUTED as a criterion for the closed form (branch_test_refuted: (1,3) passes the equidistant test but is not {w,..,Rw}); the repaired test (exact version) is proved to imply {w,..,Rw}. process_shifts is transcribed over Q; merging and sorting preserve sum c g(s) for every g (all rules). Validation run against /repo on every check: the real generate_shift_rule / generate_multi_shift_rule are run on generated frequency sets (multiples, offset-equally-spaced, integer non-equidistant, non-commensurate, dense), default/explicit shifts, orders 1-2 (3-4 in thorough) and the moment conditions of the returned float rule are evaluated on the exact values of the floats (IEEE double with exactly rounded sums as a filter: pass only if residual <= 1e-10*scale; everything else is decided in 40-digit mpmath arithmetic against 1e-8*scale; by the theorem that IS exactness up to the stated residual); the rule is also applied to random trigonometric polynomials at random points (direct oracle); branch decision (observed by counting linear-solver calls) and process_shifts are compared with the Gallina model inside Coq.",
-    "note": "NOT proved in Coq: that the equidistant closed-form coefficients satisfy the moments for arbitrary R (only R=1 is a theorem); that linalg_solve returns a solution. Both are validated per generated instance only (residual <= 1e-8*scale, scale = max(1,sum|c|)*max(1,w)+w^order). The period wrap of _iterate_shift_rule is proved sound only for a true period (w*T in 2*pi*Z); frequencies_to_period rounds non-integer frequencies to 5 decimals, which is not modelled (generated frequencies either have <= 4 decimals or are so incommensurate that no wrap occurs). Cases in which the implementation itself warns about a (near-)singular system or raises LinAlgError are excluded from the exactness check and counted (e.g. default shifts with frequencies (1,2,4)); np.allclose on the default-shift test is modelled with a 50-digit rational pi and generated explicit shifts are either exactly the defaults or far from them (a shift within rtol=1e-5 of the default gets the closed-form coefficients and is then inexact at the 1e-5 level: by design, not probed). Real-number theorems use the stdlib real axioms. The Gallina transcriptions (branch test, process_shifts) are tied to /repo only by the correspondence run; process_shifts is tied on dyadic data where float arithmetic is exact.",
+    "note": "NOT proved in Coq: that the equidistant closed-form coefficients satisfy the moments for arbitrary R (only R=1 is a theorem); that linalg_solve returns a solution. Both are validated per generated instance only (residual <= 1e-8*scale, scale = max(1,sum|c|)*max(1,w)+w^order). The period wrap of _iterate_shift_rule is proved sound only for a true period (w*T in 2*pi*Z); frequencies_to_period rounds non-integer frequencies to 5 decimals (and truncates with np.int64), so for order >= 2 the wrap period need not be a period of the spectrum: such failures are real (inexact at the 1e-5 level) and are reported under the stable key finding:period_wrap_rounded_frequencies when (and only when) the value of the real frequencies_to_period is not a common period of the case's frequencies; a fixed corpus case triggers it on every run. Cases in which the implementation itself warns about a (near-)singular system or raises LinAlgError are excluded from the exactness check and counted (e.g. default shifts with frequencies (1,2,4)); np.allclose on the default-shift test is modelled with a 50-digit rational pi and generated explicit shifts are either exactly the defaults or far from them (a shift within rtol=1e-5 of the default gets the closed-form coefficients and is then inexact at the 1e-5 level: by design, not probed). Real-number theorems use the stdlib real axioms. The Gallina transcriptions (branch test, process_shifts) are tied to /repo only by the correspondence run; process_shifts is tied on dyadic data where float arithmetic is exact.",
     "assumptions": ["frequencies are finite floats/ints; jax/torch/autograd array inputs are outside the model",
                     "explicit shifts are not within the np.allclose tolerance band of the default shifts unless equal to them",
                     "exactness is checked up to residual 1e-8*scale (double-precision filter at 1e-10*scale, 40-digit decision otherwise) on the exact float values"],
@@ -72,6 +73,21 @@ class FP:
 
 
 FAST_PASS = 1e-10
+
+
+def period_not_true(freq_sets, periods):
+    """cause of the second defect: a component differentiated to order >= 2 whose wrap period (the value of the
+    real frequencies_to_period, which rounds non-integer frequencies to 5 decimals and truncates) is NOT a
+    common period of its frequencies: some w*T/(2 pi) is not an integer"""
+    for fs, T in zip(freq_sets, periods or []):
+        if T is None:
+            continue
+        for w in fs:
+            if w > 0:
+                k = Fraction(w) * Fraction(T) / Fraction(2 * math.pi)
+                if abs(k - round(k)) > Fraction(1, 10 ** 9):
+                    return True
+    return False
 
 
 def ipow(B, w, n):
@@ -351,6 +367,9 @@ CORPUS = [
     {"kind": "single", "cls": "offset_equidistant", "skind": "default", "freqs": [1.0, 1.1], "shifts": None, "order": 1},
     {"kind": "single", "cls": "offset_equidistant", "skind": "explicit_random", "freqs": [3, 4],
      "shifts": [0.2, 0.7], "order": 1},
+    # second defect: wrap period from frequencies rounded to 5 decimals
+    {"kind": "single", "cls": "non_commensurate", "skind": "explicit_random", "freqs": [math.pi / 3],
+     "shifts": [2.177239621497128], "order": 2},
     {"kind": "multi", "cls": ["multiples", "multiples"], "skind": ["default", "default"], "freqs": [[1], [1]],
      "shifts": None, "orders": None},
     {"kind": "multi", "cls": ["multiples", "multiples"], "skind": ["default", "default"], "freqs": [[1], [1, 2]],
@@ -393,7 +412,7 @@ def run(ctx):
 
     # ---- validation: moment conditions (= exactness, Props/C35.v) + direct oracle on the real output
     hist = {"single": 0, "multi": 0, "process": 0, "errors_expected_shape": 0, "closed_form_branch": 0,
-            "solve_branch": 0, "excluded_singular_warned_or_raised": 0, "finding_hits": 0,
+            "solve_branch": 0, "excluded_singular_warned_or_raised": 0, "finding_hits": 0, "finding_period_hits": 0,
             "merged_rows_process": 0, "ill_conditioned_sum_abs_c_gt_1e6": 0}
     by_cls, by_order, by_skind = {}, {}, {}
     distinct = set()
@@ -437,6 +456,7 @@ def run(ctx):
             x = crng.uniform(-3.2, 3.2)
             ores, got, want = two_stage(oracle_single, rule, p, x, c["order"])
             cause = offset_equidistant(c["freqs"], c["shifts"]) and o["solve_calls"] == 0
+            cause2 = period_not_true([c["freqs"]], o.get("periods"))
             witness = {"trig_poly": p, "x": x, "rule_value": got, "derivative": want}
         else:
             orders = c["orders"] or [1, 1]
@@ -446,6 +466,7 @@ def run(ctx):
             ores, got, want = two_stage(oracle_multi, rule, p, q, x, y, orders)
             shs = c["shifts"] or [None, None]
             cause = any(offset_equidistant(f, s) for f, s in zip(c["freqs"], shs))
+            cause2 = period_not_true(c["freqs"], o.get("periods"))
             witness = {"trig_poly_x": p, "trig_poly_y": q, "x": x, "y": y, "rule_value": got, "derivative": want}
         checked += 1
         distinct.add(json.dumps([c["freqs"], c["shifts"], c.get("order", c.get("orders"))]))
@@ -464,6 +485,14 @@ def run(ctx):
                           what="generate_shift_rule uses the equidistant closed form for frequencies that are equally spaced "
                                "but not {w,2w,..,Rw} (smallest frequency != spacing): the rule is not exact, e.g. "
                                "generate_shift_rule((1,3)) differentiates sin(3x) at 0 to 1.0 instead of 3")
+        elif cause2:
+            hist["finding_period_hits"] += 1
+            replay["repro"] = "import math, numpy as np; from pennylane.gradients import generate_shift_rule; w = math.pi/3; r = generate_shift_rule((w,), shifts=(2.177239621497128,), order=2); print(sum(c*np.cos(w*s) for c, s in r), -w*w)  # -1.0966653 vs -1.0966227"
+            ctx.violation(FINDING_KEY_PERIOD, replay,
+                          what="generate_shift_rule(order>=2) wraps the iterated shifts with frequencies_to_period, which rounds "
+                               "non-integer frequencies to 5 decimals (and truncates): the wrap period is not a period of the "
+                               "spectrum and the rule is inexact at the 1e-5 level, e.g. generate_shift_rule((pi/3,), "
+                               "shifts=(2.1772396,), order=2)")
         else:
             ctx.violation("exact:" + json.dumps(c, sort_keys=True), replay,
                           what="returned shift rule violates the moment conditions (is not exact) for its frequency spectrum")
